@@ -243,7 +243,7 @@ fn dump_node(board: &mut Board, depth_left: u32, d: &mut Dump) -> usize {
         }
     }
     d.nodes[id - 1] = format!(
-        "{{\"fifty\":{fifty},\"rep\":{rep},\"chk\":{chk},\"eval\":{eval},\"full\":{full},\"kids\":[{}]}}",
+        "{{\"ev\":\"n\",\"fifty\":{fifty},\"rep\":{rep},\"chk\":{chk},\"eval\":{eval},\"full\":{full},\"kids\":[{}]}}",
         kids.join(",")
     );
     id
@@ -269,7 +269,7 @@ pub fn dump_tree(board: &mut Board, depth: u32, cap: usize) -> Option<Vec<String
     let chk = board.is_in_check(board.current_turn);
     let eval = i32::from(SimpleEvaluator.evaluate(board));
     d.nodes[0] = format!(
-        "{{\"fifty\":false,\"rep\":false,\"chk\":{chk},\"eval\":{eval},\"full\":true,\"kids\":[{}]}}",
+        "{{\"ev\":\"n\",\"fifty\":false,\"rep\":false,\"chk\":{chk},\"eval\":{eval},\"full\":true,\"kids\":[{}]}}",
         kids.join(",")
     );
     Some(d.nodes)
@@ -300,19 +300,22 @@ pub fn cmd_tree_dump(args: &Args) {
             continue;
         };
         let hist_json: Vec<String> = hist.iter().map(|m| format!("\"{m}\"")).collect();
-        let path = format!("{outdir}/tree-{id}.json");
+        // one header line, then one line per node (huge single-line objects are quadratic to load in TLC)
+        let path = format!("{outdir}/tree-{id}.ndjson");
         let mut w = std::io::BufWriter::new(std::fs::File::create(&path).unwrap());
-        write!(
+        writeln!(
             w,
-            "{{\"id\":{id},\"fen\":\"{fen}\",\"hist\":[{}],\"depth\":{depth},\"best\":{},\"score\":{},\"panicked\":{},\"n\":{},\"nodes\":[{}]}}",
+            "{{\"ev\":\"tree\",\"id\":{id},\"fen\":\"{fen}\",\"hist\":[{}],\"depth\":{depth},\"best\":{},\"score\":{},\"panicked\":{},\"n\":{}}}",
             hist_json.join(","),
             o.best.map_or("\"none\"".to_string(), |p| format!("\"{}\"", p.to_notation())),
             opt(o.score),
             o.panicked,
-            nodes.len(),
-            nodes.join(",")
+            nodes.len()
         )
         .unwrap();
+        for nd in &nodes {
+            writeln!(w, "{nd}").unwrap();
+        }
         w.flush().unwrap();
         done += 1;
     }
@@ -447,9 +450,103 @@ pub fn cmd_determinism(args: &Args) {
     println!("{{\"cases\":{}}}", cases.len());
 }
 
-/// Candidate positions for C12: random playouts, keeping positions where the 3-ply analysis
-/// finds a mate in <= 2 or an avoidable mate-in-1 threat; written out as FEN (no history,
-/// small half-move clock) by the harness's own FEN writer.
+/// (mate in 1 exists, forced mate in 2 exists, avoidable mate-in-1 threat) by exhaustive 3-ply analysis
+fn classify(board: &mut Board) -> (bool, bool, bool) {
+    let mut m1 = false;
+    let mut m2 = false;
+    let mut safe = false;
+    let mut unsafe_ = false;
+    for m in board.get_legal_moves() {
+        board.make_move(m);
+        let replies = board.get_legal_moves();
+        let chk = board.is_in_check(board.current_turn);
+        if replies.is_empty() {
+            if chk {
+                m1 = true;
+            }
+            safe = true;
+            board.unmake_move();
+            continue;
+        }
+        let mut all_answered = true;
+        let mut this_safe = true;
+        for r in replies {
+            board.make_move(r);
+            if is_mate(board) {
+                this_safe = false;
+                all_answered = false;
+            } else if all_answered {
+                let mut answer = false;
+                for a in board.get_legal_moves() {
+                    board.make_move(a);
+                    if is_mate(board) {
+                        answer = true;
+                    }
+                    board.unmake_move();
+                    if answer {
+                        break;
+                    }
+                }
+                if !answer {
+                    all_answered = false;
+                }
+            }
+            board.unmake_move();
+        }
+        if all_answered {
+            m2 = true;
+        }
+        if this_safe {
+            safe = true;
+        } else {
+            unsafe_ = true;
+        }
+        board.unmake_move();
+    }
+    (m1, m2 && !m1, safe && unsafe_)
+}
+
+/// Random sparse material: both kings, an attacking side with heavy pieces, a thin defence.
+fn random_material(rng: &mut crate::h_rng::Rng) -> Option<String> {
+    let mut b = [0u8; 64];
+    let wk = rng.below(64);
+    let mut bk = rng.below(64);
+    while (bk / 8).abs_diff(wk / 8) <= 1 && (bk % 8).abs_diff(wk % 8) <= 1 {
+        bk = rng.below(64);
+    }
+    b[wk] = 6;
+    b[bk] = 12;
+    let attacker_white = rng.chance(1, 2);
+    let na = 2 + rng.below(3);
+    let nd = rng.below(4);
+    for i in 0..(na + nd) {
+        let sq = rng.below(64);
+        if b[sq] != 0 {
+            continue;
+        }
+        let for_attacker = i < na;
+        let kind: u8 = if for_attacker { *rng.pick(&[5u8, 5, 4, 4, 3, 2]) } else { *rng.pick(&[1u8, 1, 2, 3, 4]) };
+        if kind == 1 && (sq / 8 == 0 || sq / 8 == 7) {
+            continue;
+        }
+        let white = for_attacker == attacker_white;
+        b[sq] = kind + if white { 0 } else { 6 };
+    }
+    let turn = if rng.chance(3, 4) { u8::from(!attacker_white) } else { u8::from(attacker_white) };
+    let fen = fen_of(&b, turn, &[0, 0, 0, 0], -1, rng.below(11) as u16, 1 + rng.below(60) as u16, true);
+    let mut board = Board::from_fen(&fen);
+    // legal position: the side not to move is not in check, the side to move has a move
+    let other = if board.current_turn == Color::White { Color::Black } else { Color::White };
+    if board.is_in_check(other) || board.get_legal_moves().len() < 2 {
+        return None;
+    }
+    Some(fen)
+}
+
+/// Candidate positions for C12 with quotas per clause: positions from random playouts and random
+/// sparse material, kept when the exhaustive 3-ply analysis (engine move generator; the authoritative
+/// evaluation of the clauses is TLC's) finds a mate in 1, a forced mate in 2, or an avoidable
+/// mate-in-1 threat; written out as FEN (no history, small half-move clock) by the harness's writer.
 pub fn cmd_mate_cands(args: &Args) {
     use crate::h_rng::Rng;
     crate::board::zkey::ZTable::init();
@@ -458,11 +555,27 @@ pub fn cmd_mate_cands(args: &Args) {
     let seeds_dir = args.str("seeds", "seeds");
     let fens = crate::h_chess::read_fens(&seeds_dir, &["bench.fen", "perft.fen", "mates.fen"]);
     let mut rng = Rng::new(seed);
-    let mut found = 0usize;
+    let quota = [want / 4, want / 2, want - want / 4 - want / 2]; // mate in 1, mate in 2, threat
+    let mut got = [0usize; 3];
     let mut seen = std::collections::HashSet::new();
     let mut tries = 0usize;
-    while found < want && tries < want * 400 {
+    let mut emit = |fen: String, board: &mut Board, got: &mut [usize; 3], seen: &mut std::collections::HashSet<String>| {
+        let (m1, m2, th) = classify(board);
+        let cat = if m2 { 1 } else if m1 { 0 } else if th { 2 } else { 3 };
+        if cat < 3 && got[cat] < quota[cat] && seen.insert(fen.clone()) {
+            got[cat] += 1;
+            println!("{fen}");
+        }
+    };
+    while got.iter().sum::<usize>() < want && tries < want * 3000 {
         tries += 1;
+        if rng.chance(2, 3) {
+            if let Some(fen) = random_material(&mut rng) {
+                let mut board = Board::from_fen(&fen);
+                emit(fen, &mut board, &mut got, &mut seen);
+            }
+            continue;
+        }
         let mut board = if rng.chance(1, 3) {
             BoardBuilder::construct_starting_board().build()
         } else {
@@ -477,34 +590,58 @@ pub fn cmd_mate_cands(args: &Args) {
             if lm.is_empty() {
                 break;
             }
-            // prefer captures a little so that the material thins out
             let caps: Vec<&Ply> = lm.iter().filter(|p| p.captured_piece.is_some()).collect();
             let m = if !caps.is_empty() && rng.chance(1, 3) { **rng.pick(&caps) } else { *rng.pick(&lm) };
             board.make_move(m);
-            if rng.chance(1, 3) {
-                continue;
-            }
-            let lm2 = board.get_legal_moves();
-            if lm2.len() < 2 {
-                continue;
-            }
-            // quick applicability test (the authoritative evaluation of the clauses is TLC's)
-            let f = facts(&mut board);
-            let applicable = f.contains("\"mates\":true") || f.contains("[1,") ;
-            let mate2 = f.contains("\"replies\":[[0,1]") ;
-            if !(applicable || mate2) {
+            if rng.chance(1, 2) || board.get_legal_moves().len() < 2 {
                 continue;
             }
             let a = project_light(&board);
-            let fen = fen_of(&a.b, a.t, &a.c, a.ep, (rng.below(11)) as u16, a.f.max(1), true);
-            if seen.insert(fen.clone()) {
-                println!("{fen}");
-                found += 1;
+            let fen = fen_of(&a.b, a.t, &a.c, a.ep, rng.below(11) as u16, a.f.max(1), true);
+            let before = got.iter().sum::<usize>();
+            let mut fresh = Board::from_fen(&fen);
+            emit(fen, &mut fresh, &mut got, &mut seen);
+            if got.iter().sum::<usize>() > before {
                 per_game += 1;
-                if found >= want || per_game >= 2 {
+                if per_game >= 2 {
                     break;
                 }
             }
+        }
+    }
+    eprintln!("mate-cands: mate1={} mate2={} threat={} tries={}", got[0], got[1], got[2], tries);
+}
+
+/// Sparse positions in which checks occur inside a shallow tree (for C11: the check extension matters).
+pub fn cmd_checky(args: &Args) {
+    use crate::h_rng::Rng;
+    crate::board::zkey::ZTable::init();
+    let seed = args.u64("seed", 1);
+    let want = args.usize("n", 100);
+    let mut rng = Rng::new(seed);
+    let mut out = 0usize;
+    let mut tries = 0usize;
+    while out < want && tries < want * 1000 {
+        tries += 1;
+        let Some(fen) = random_material(&mut rng) else { continue };
+        let mut board = Board::from_fen(&fen);
+        // some move gives check, or the side to move is in check
+        let mut checky = board.is_in_check(board.current_turn);
+        if !checky {
+            for m in board.get_legal_moves() {
+                board.make_move(m);
+                if board.is_in_check(board.current_turn) && !board.get_legal_moves().is_empty() {
+                    checky = true;
+                }
+                board.unmake_move();
+                if checky {
+                    break;
+                }
+            }
+        }
+        if checky {
+            println!("{fen}");
+            out += 1;
         }
     }
 }
